@@ -266,6 +266,10 @@ pub struct Policy {
     /// they can then observe the lock as busy)
     #[serde(default)]
     pub preempt_in_cs: bool,
+    /// also allow a context switch right after a lock was released (state a changed library
+    /// might share outside the locks, e.g. an atomic updated after the guard is dropped)
+    #[serde(default)]
+    pub preempt_at_release: bool,
 }
 
 #[derive(Clone, Copy, Debug, PartialEq)]
@@ -299,6 +303,8 @@ pub struct SchedProbes {
     pub preemptions_inside_critical_section: u64,
     #[serde(default)]
     pub failed_try_acquisitions: u64,
+    #[serde(default)]
+    pub preemptions_after_release: u64,
 }
 
 #[derive(Clone, Debug, Serialize, Deserialize, PartialEq)]
@@ -734,6 +740,32 @@ impl Sched {
                     }
                 }
             }
+        }
+        // (never unwinds: this runs inside a guard's Drop)
+        if !st.policy.preempt_at_release
+            || st.aborted.is_some()
+            || st.policy.kind == PolicyKind::Enumerate
+            || st.running != Some(tid)
+            || std::thread::panicking()
+        {
+            return;
+        }
+        if !st.yield_rng.chance(1, 4) {
+            return;
+        }
+        st.probes.preemptions_after_release += 1;
+        st.status[tid] = Status::Yield;
+        st.running = None;
+        self.schedule(&mut st);
+        loop {
+            if st.running == Some(tid) {
+                return;
+            }
+            if st.aborted.is_some() {
+                st.status[tid] = Status::Running;
+                return;
+            }
+            st = self.cvs[tid].wait(st).unwrap();
         }
     }
 
